@@ -3104,6 +3104,45 @@ func (dsc *dataStoreCommand) load(l lane.Lane, path string) (err error) {
 	return
 }
 
+// The value a SORT pattern designates for an element: "#" is the element itself, the
+// first "*" is replaced by the element, "key->field" reads a field of a hash. A pattern
+// without "*", a missing key or a key of the other type designates nothing.
+func (dsc *dataStoreCommand) sortPatternUnlocked(pattern, element string) (val string, exists bool) {
+	if pattern == "#" {
+		return element, true
+	}
+	star := strings.Index(pattern, "*")
+	if star < 0 {
+		return
+	}
+	rest := pattern[star+1:]
+	field := ""
+	if arrow := strings.Index(rest, "->"); arrow >= 0 && arrow+2 < len(rest) {
+		field = rest[arrow+2:]
+		rest = rest[:arrow]
+	}
+	sk, objExists := dsc.getKeyObjectUnlocked(pattern[:star] + element + rest)
+	if !objExists {
+		return
+	}
+	if field != "" {
+		m := sk.getHashTable()
+		if m == nil {
+			return
+		}
+		v, fieldExists := m.get(field)
+		if !fieldExists {
+			return
+		}
+		return v.(string), true
+	}
+	strBytes := sk.getStringBytes()
+	if strBytes == nil {
+		return
+	}
+	return string(strBytes), true
+}
+
 func (dsc *dataStoreCommand) sort(sourceKeyName, byPattern, destKeyName string, startAt, count int, getPatterns []string, limit, desc, alpha bool) (output respValue) {
 	dsc.lock()
 	defer dsc.unlock()
@@ -3164,9 +3203,8 @@ func (dsc *dataStoreCommand) sort(sourceKeyName, byPattern, destKeyName string, 
 			dontSort = true
 		} else {
 			for idx, val := range vals {
-				pat := strings.Replace(byPattern, "*", val.data, 1)
-				byVal, byValExists := dsc.getKeyUnlocked(pat)
-				if byValExists != VALUE_EXISTS {
+				byVal, byValExists := dsc.sortPatternUnlocked(byPattern, val.data)
+				if !byValExists {
 					val.sortByStr = "0"
 					val.sortByFloat = 0
 				} else {
@@ -3236,23 +3274,10 @@ func (dsc *dataStoreCommand) sort(sourceKeyName, byPattern, destKeyName string, 
 
 	for _, val := range vals {
 		for _, getPattern := range getPatterns {
-			if getPattern == "#" {
-				rv := respValue{data: respBulkString(val.data)}
-				a = append(a, rv)
+			if got, exists := dsc.sortPatternUnlocked(getPattern, val.data); exists {
+				a = append(a, respValue{data: respBulkString(got)})
 			} else {
-				// replace the first asterisk in the get pattern with the list item value
-				if !strings.Contains(getPattern, "*") {
-					a = append(a, nilVal)
-				} else {
-					pat := strings.Replace(getPattern, "*", val.data, 1)
-					sk, exists := dsc.getKeyUnlocked(pat)
-					if exists != VALUE_EXISTS {
-						a = append(a, nilVal)
-					} else {
-						str := respValue{data: respBulkString(sk)}
-						a = append(a, str)
-					}
-				}
+				a = append(a, nilVal)
 			}
 		}
 	}
